@@ -184,5 +184,6 @@ def run(tier, seed, replay=None):
         c02_loop.loops(ck, tier, seed)
         # inlining (whole program) and scalar replacement: Gallina mirrors, preservation theorems, output equality with the real passes
         from checks import c02_inl
+        check_props(ck, 'theories/C02inl/Props.v')
         c02_inl.inl(ck, tier, seed)
     return ck.finish()
